@@ -296,7 +296,9 @@ def gen_C07(chk):
     for j in range(cnt(chk, 1500, 6000)):
         r = rng.random()
         scope = []
-        t = gen.random_formula(rng, rng.randint(1, 12), props + (["zz"] if r < 0.1 else []), scope=scope,
+        # names that are no network variable: unknown, or the name of a symbolic helper variable
+        bad = rng.choice(["zz", "a_extra_0", "b_extra_1", "x_extra_0"])
+        t = gen.random_formula(rng, rng.randint(1, 12), props + ([bad] if r < 0.12 else []), scope=scope,
                                max_vars=4, names=HOSTILE_NAMES[:rng.choice([3, 6, 12])], w_hybrid=0.5)
         if r < 0.25:
             # break scoping: free variable, re-quantification, jump to an unbound variable
@@ -567,7 +569,8 @@ def gen_C14(chk):
         props = net_props(net)
         for j in range(cnt(chk, 40, 120)):
             ext = rng.random() < 0.6
-            f = gen.random_formula(rng, rng.randint(1, 9), props + (["nope"] if rng.random() < 0.1 else []), max_vars=3,
+            bad = rng.choice(["nope", props[0] + "_extra_0", props[-1] + "_extra_1"])
+            f = gen.random_formula(rng, rng.randint(1, 9), props + ([bad] if rng.random() < 0.12 else []), max_vars=3,
                                    wilds=(("p", "q") if ext else ()), doms=(("d",) if ext else ()),
                                    binops=gen.BINOPS, names=HOSTILE_NAMES[:6], w_hybrid=0.5)
             r = rng.random()
